@@ -407,8 +407,13 @@ func runC17(ctx *Ctx, idx int) {
 			cfg.Sensors = append(cfg.Sensors, configuration.SensorConfig{ID: fmt.Sprintf("wsensor-%d-%d-%d", idx, k, j), HwMon: &configuration.HwMonSensorConfig{Platform: t.platform(sel.Chip), Index: sel.Index}})
 		}
 		cfg.Curves = []configuration.CurveConfig{{ID: "wcurve", Linear: &configuration.LinearCurveConfig{Sensor: cfg.Sensors[0].ID, Min: 40, Max: 80}}}
+		sharedIds := r.Intn(3) == 0 // a sensor and a fan may carry the same id (ids are per kind)
 		for j, sel := range fsels {
-			cfg.Fans = append(cfg.Fans, configuration.FanConfig{ID: fmt.Sprintf("wfan-%d-%d-%d", idx, k, j), Curve: "wcurve", HwMon: &configuration.HwMonFanConfig{Platform: t.platform(sel.Chip), Index: sel.Index, RpmChannel: sel.RpmChannel}})
+			fid := fmt.Sprintf("wfan-%d-%d-%d", idx, k, j)
+			if sharedIds && j < len(cfg.Sensors) {
+				fid = cfg.Sensors[j].ID
+			}
+			cfg.Fans = append(cfg.Fans, configuration.FanConfig{ID: fid, Curve: "wcurve", HwMon: &configuration.HwMonFanConfig{Platform: t.platform(sel.Chip), Index: sel.Index, RpmChannel: sel.RpmChannel}})
 		}
 		configuration.CurrentConfig = cfg
 		reg := prometheus.NewRegistry()
